@@ -16,6 +16,8 @@ Driver for the C07 / C10 correspondence.  One request per line (strings in the P
   `files <reset 0|1> <pps> <counters> <texts>`  pps: `-` or comma list of `T` / `L<n>`; counters: comma list or `-`;
                                            texts: `|`-separated → written texts, `|`-separated
   `sort <strings>`                         `|`-separated (`!` = none) → sorted, same format
+  `renderings <percall 0|1> <reset 0|1> <pps> <counters> <texts> <aborted>`   texts as in `files` (each one chunk), aborted: a string
+                                           of `0`/`1`, one per text (the generator raises after the chunk) → written texts
   `fpp <inplace 0|1> <defmode> <stuball 0|1> <failOn> <py> <objs> <init> <jobs> <query>`
         objs:  `;`-separated `L<k>` | `M<mode>` | `X<check 0|1>:<arg>,<arg>…` (`!` = empty command) | `C<k>` | `U<k>`; `-` = empty list
         init:  `;`-separated `<path>:<bytes>:<mode>` or `-`;   jobs: `;`-separated `<G | K<srcmode>>:<allow 0|1>:<path>:<bytes>` or `-`
@@ -180,7 +182,8 @@ def answer (line : String) : String :=
   | ["flags"] =>
       s!"uniqreset={b01 Gen.TplFlows.resetsUniqueNamesPerFile} incsort={b01 Gen.TplFlows.includeGeneratorSorts} " ++
       s!"platform={b01 Gen.TplFlows.platformVersionAuditOffOnly} ppreset={b01 Gen.TplFlows.linePPResetPerFile} " ++
-      s!"cachedprop={b01 Gen.TplFlows.cachedPropertyPerInstance} lazycompile={b01 Gen.TplFlows.templatesCompiledLazily}"
+      s!"cachedprop={b01 Gen.TplFlows.cachedPropertyPerInstance} lazycompile={b01 Gen.TplFlows.templatesCompiledLazily} " ++
+      s!"linebuf={b01 Gen.TplFlows.lineBufferPerCall}"
   | ["clean", lang, kind, cs] =>
       match findLang lang, parseKind kind, parseSrcs cs with
       | some L, some k, some cs => b01 (L.rootsCleanFor cs k)
@@ -208,6 +211,15 @@ def answer (line : String) : String :=
           if ss.length ≠ pps.length then "bad-op"
           else if reset = "1" then showStrs (runFilesReset pps ts)
           else if reset = "0" then showStrs (runFilesBeforeFix pps ss ts) else "bad-op"
+      | _, _, _ => "bad-op"
+  | ["renderings", percall, reset, pps, counters, texts, aborted] =>
+      match parsePPs pps, parseNats counters, parseStrs texts with
+      | some pps, some ss, some ts =>
+          let ab := aborted.toList
+          if ss.length ≠ pps.length ∨ ab.length ≠ ts.length ∨ ab.any (fun c => c ≠ '0' ∧ c ≠ '1') ∨
+             (percall ≠ "0" ∧ percall ≠ "1") ∨ (reset ≠ "0" ∧ reset ≠ "1") then "bad-op"
+          else showStrs (runRenderings (percall = "1") (reset = "1") pps ss []
+                  ((ts.zip ab).map fun p => (⟨[p.1], p.2 = '1'⟩ : Rendering)))
       | _, _, _ => "bad-op"
   | ["sort", strs] =>
       match parseStrs strs with
